@@ -12,10 +12,10 @@ import (
 var levelOf = map[string]string{"C09": "fault_enumeration"}
 
 var ruleOf = map[string]string{
-	"flatten": "cases = bundles drawn from the generator of class W (seeded, swarm flags per construct class) x one applicable option set x a list of schedules (canonical + seeded perturbations of every map iteration in analysis+spec+swag [+ JSON key-order permutations of the files on the simulated disk]); one evaluation = one Flatten execution (second passes and fresh analyses count too). A run is NON-TRIVIAL when Flatten succeeded, its output differs from the normal form of the input, and at least one perturbed map iteration had >= 2 keys (or the files were served with permuted key order); two runs are DISTINCT when (root document hash, option set, interleaving fingerprint = hash of the order of every >=2-key map iteration and every load) differ. distinct_nontrivial = size of that set.",
+	"flatten":  "cases = bundles drawn from the generator of class W (seeded, swarm flags per construct class) x one applicable option set x a list of schedules (canonical + seeded perturbations of every map iteration in analysis+spec+swag [+ JSON key-order permutations of the files on the simulated disk]); one evaluation = one Flatten execution (second passes and fresh analyses count too). A run is NON-TRIVIAL when Flatten succeeded, its output differs from the normal form of the input, and at least one perturbed map iteration had >= 2 keys (or the files were served with permuted key order); two runs are DISTINCT when (root document hash, option set, interleaving fingerprint = hash of the order of every >=2-key map iteration and every load) differ. distinct_nontrivial = size of that set.",
 	"failsafe": "cases = bundles from W and W+ (dangling refs, missing files, deep/nested/cyclic pointers, back-references, colliding imports with refs, container-only recursion, odd holders) x option set x API (Flatten/New/Schema); first a fault-free pass counting the loads L of this (bundle, options, schedule), then EVERY k in 1..L x every fault kind (exhaustive per sampled input). NON-TRIVIAL = a fault actually fired at the loader seam, or the bundle contains a W+ construct; DISTINCT by (bundle hash, options, api, k, kind).",
-	"mixin":   "cases = a primary and 0..3 mixins over small shared key pools (collisions frequent), folded by Mixin in one call or in successive calls, under canonical and perturbed map schedules; one evaluation = one Mixin history. NON-TRIVIAL = at least one key collision or one operation-id collision occurred and a perturbed map iteration had >= 2 keys; DISTINCT by (documents hash, split mode, interleaving fingerprint).",
-	"readers": "cases = a document (unflattened or flattened) analyzed once, N=2..4 reader goroutines each with a query program over all public methods, one pre-drawn interleaving decision list; one evaluation = one interleaved run (plus its sequential reference run). NON-TRIVIAL = at least one context switch happened inside a getter; DISTINCT by (document hash, programs hash, schedule trace).",
+	"mixin":    "cases = a primary and 0..3 mixins over small shared key pools (collisions frequent), folded by Mixin in one call or in successive calls, under canonical and perturbed map schedules; one evaluation = one Mixin history. NON-TRIVIAL = at least one key collision or one operation-id collision occurred and a perturbed map iteration had >= 2 keys; DISTINCT by (documents hash, split mode, interleaving fingerprint).",
+	"readers":  "cases = a document (unflattened or flattened) analyzed once, N=2..4 reader goroutines each with a query program over all public methods, one pre-drawn interleaving decision list; one evaluation = one interleaved run (plus its sequential reference run). NON-TRIVIAL = at least one context switch happened inside a getter; DISTINCT by (document hash, programs hash, schedule trace).",
 }
 
 func kindOfProp(p string) string {
@@ -132,8 +132,8 @@ func writeEvidence(cfg *driverCfg, agg *aggregate, ts tierSpec, searchWall, wall
 	}
 	cov["known_findings_hit"] = kh
 	cov["components"] = map[string]string{
-		"go-openapi/analysis":              "real (current /repo working tree), source-instrumented: map iteration, yields",
-		"go-openapi/spec, go-openapi/swag": "real (module cache), source-instrumented: map iteration",
+		"go-openapi/analysis":                                "real (current /repo working tree), source-instrumented: map iteration, yields",
+		"go-openapi/spec, go-openapi/swag":                   "real (module cache), source-instrumented: map iteration",
 		"jsonpointer, jsonreference, encoding/json, reflect": "real, untouched",
 		"file system / HTTP behind spec.PathLoader":          "stub: simdisk (in-memory tree, fault injection by load sequence number)",
 		"Go runtime random map iteration start":              "replaced by the seeded permutation scheduler (simrt)",
